@@ -44,20 +44,57 @@ Proof. reflexivity. Qed.
 Lemma delete_leaves_marker : cache_delete_leaves_marker = true.
 Proof. reflexivity. Qed.
 
-Theorem no_stale_read_after_completed_write :
+(* Full statement: for EVERY schedule, clock advances (process PC) between any two steps included:
+     forall init prog readers schedule obs,
+       sch_run (sch_init init prog readers) schedule = Some obs -> no_stale [(init, 0)] 0 prog false [] schedule obs = true.
+   The code as it is refutes it (finding C07-EXPDEL, open; no_stale_if_expired_entry_dropped_refuted below):
+   a TTLGet that finds an expired entry drops it, and with it the guard of a read in flight.
+   Proved (1) for the code as it is (all flags read from the source) for the schedules during which the clock
+   does not advance - exactly what excludes the witness; (2) for every schedule, clock advances included, for
+   the variant in which the expired entry leaves a "not found" marker (repair proposed in
+   findings/C07/EXPDEL.diff; the flag cache_expired_leaves_marker says which variant the source is). *)
+Theorem no_stale_read_after_completed_write_partial :
   forall (init : option N) (prog : list wop) (readers : list (list rop)) (schedule : list pid) obs,
+  ~ In PC schedule ->
   sch_run (sch_init init prog readers) schedule = Some obs ->
-  no_stale [init] prog false [] schedule obs = true.
+  no_stale [(init, 0%N)] 0 prog false [] schedule obs = true.
 Proof.
-  exact (fun init prog readers ps obs => no_stale_after_complete_proved ps _ [] obs false (Inv_init init prog readers)).
+  exact (fun init prog readers ps obs Hc =>
+           no_stale_no_clock_proved ps _ [] obs false (Inv_init init prog readers) eq_refl Hc).
 Qed.
+
+Theorem no_stale_with_clock_steps_if_expired_entry_leaves_marker :
+  forall (init : option N) (prog : list wop) (readers : list (list rop)) (schedule : list pid) obs,
+  sch_run_gen true true true (sch_init init prog readers) schedule = Some obs ->
+  no_stale [(init, 0%N)] 0 prog false [] schedule obs = true.
+Proof.
+  exact (fun init prog readers ps obs => no_stale_marker_proved ps _ [] obs false (Inv_init init prog readers)).
+Qed.
+
+(* C07-EXPDEL: the row holds 0 and is not cached; reader 0 (Get) fetches 0 from the storage; the writer's
+   CompareAndSwap to 1 with a TTL completes; the clock advances past the TTL; reader 1 (TTLGet) finds the expired
+   entry, answers "not found" and drops it; reader 0 resumes, finds nothing cached and fills 0; reader 2 (Get),
+   started after the write completed, gets 0 - older than the completed write - and so does every later read. *)
+Example no_stale_if_expired_entry_dropped_refuted :
+  exists sched obs, sch_run_gen true true false (sch_init (Some 0%N) [WCasT 1%N] [[OpGet]; [OpTTLGet]; [OpGet]]) sched = Some obs
+                    /\ no_stale [(Some 0%N, 0%N)] 0 [WCasT 1%N] false [] sched obs = false.
+Proof.
+  exists [PR 0; PR 0; PW; PW; PC; PR 1; PR 0; PR 2]. eexists. split; [vm_compute; reflexivity|vm_compute; reflexivity].
+Qed.
+
+(* the same schedule with the marker: reader 2 is answered "not found", which is what version 1 shows once expired *)
+Example expired_entry_schedule_fresh_with_marker :
+  sch_run_gen true true true (sch_init (Some 0%N) [WCasT 1%N] [[OpGet]; [OpTTLGet]; [OpGet]])
+              [PR 0; PR 0; PW; PW; PC; PR 1; PR 0; PR 2]
+  = Some [SGetStart 0; SNone; SNone; SWDone; SClock; SGetHit 1 None; SGetDone (Some 0%N); SGetHit 1 None].
+Proof. vm_compute. reflexivity. Qed.
 
 (* The marker is necessary: if a delete only dropped the cache entry (the code before the repair of
    F8b), a reader that fetched the value before the delete completed would re-fill it afterwards and
    every later Get would return the deleted value. *)
 Example no_stale_if_delete_drops_entry_refuted :
-  exists sched obs, sch_run_gen false true (sch_init (Some 7%N) [WDel] [[OpGet]; [OpGet]]) sched = Some obs
-                    /\ no_stale [Some 7%N] [WDel] false [] sched obs = false.
+  exists sched obs, sch_run_gen false true true (sch_init (Some 7%N) [WDel] [[OpGet]; [OpGet]]) sched = Some obs
+                    /\ no_stale [(Some 7%N, 0%N)] 0 [WDel] false [] sched obs = false.
 Proof.
   exists [PR 0; PR 0; PW; PW; PR 0; PR 1]. eexists. split; [vm_compute; reflexivity|vm_compute; reflexivity].
 Qed.
@@ -72,8 +109,8 @@ Proof. eexists. split; [vm_compute; reflexivity|cbn; tauto]. Qed.
    Set under the code before the repair of F26), the "not found" entry left by an earlier read would
    outlive the completed Put of a big value and every later Get would still answer "not found". *)
 Example no_stale_if_big_value_dropped_refuted :
-  exists sched obs, sch_run_gen true false (sch_init None [WPutBig 7%N] [[OpGet]; [OpGet]]) sched = Some obs
-                    /\ no_stale [None] [WPutBig 7%N] false [] sched obs = false.
+  exists sched obs, sch_run_gen true false true (sch_init None [WPutBig 7%N] [[OpGet]; [OpGet]]) sched = Some obs
+                    /\ no_stale [(None, 0%N)] 0 [WPutBig 7%N] false [] sched obs = false.
 Proof.
   exists [PR 0; PR 0; PR 0; PW; PW; PR 1]. eexists. split; [vm_compute; reflexivity|vm_compute; reflexivity].
 Qed.
@@ -109,7 +146,7 @@ Qed.
    cache key of exactly 65531 bytes "not found" fits a chunk and the mark does not, so the cached "not
    found" outlives the Put *)
 Example cache_mark_must_fit_refuted :
-  exists ops, list_eqb sout_eqb (run_cache_gen spec_step true false (mkC ([], 0%Z) [] 0%Z) ops) (run_spec ([], 0%Z) ops) = false.
+  exists ops, list_eqb sout_eqb (run_cache_gen spec_step true false true (mkC ([], 0%Z) [] 0%Z) ops) (run_spec ([], 0%Z) ops) = false.
 Proof.
   exists [OGet [112%N; 107%N] (repeat 9%N (N.to_nat 65529)); OPut [112%N; 107%N] (repeat 9%N (N.to_nat 65529)) [1%N];
           OGet [112%N; 107%N] (repeat 9%N (N.to_nat 65529))].
@@ -120,14 +157,14 @@ Qed.
    that does not fit is ignored by fastcache, the older entry stays) a cached "not found" outlives the
    Put of a 70000-byte value, and a cached small value outlives it too. *)
 Example cache_big_value_dropped_refuted :
-  exists ops, list_eqb sout_eqb (run_cache_gen spec_step false false (mkC ([], 0%Z) [] 0%Z) ops) (run_spec ([], 0%Z) ops) = false.
+  exists ops, list_eqb sout_eqb (run_cache_gen spec_step false false true (mkC ([], 0%Z) [] 0%Z) ops) (run_spec ([], 0%Z) ops) = false.
 Proof.
   exists [OGet [97%N; 97%N] [1%N]; OPut [97%N; 97%N] [1%N] (repeat 7%N (N.to_nat 70000)); OGet [97%N; 97%N] [1%N]].
   vm_compute. reflexivity.
 Qed.
 
 Example cache_big_value_after_small_dropped_refuted :
-  exists ops, list_eqb sout_eqb (run_cache_gen spec_step false false (mkC ([], 0%Z) [] 0%Z) ops) (run_spec ([], 0%Z) ops) = false.
+  exists ops, list_eqb sout_eqb (run_cache_gen spec_step false false true (mkC ([], 0%Z) [] 0%Z) ops) (run_spec ([], 0%Z) ops) = false.
 Proof.
   exists [OPut [97%N; 97%N] [1%N] [5%N]; OPut [97%N; 97%N] [1%N] (repeat 7%N (N.to_nat 70000)); OTTLGet [97%N; 97%N] [1%N]].
   vm_compute. reflexivity.
@@ -151,14 +188,15 @@ Theorem cache_transparent_failed_writes_and_handles :
   forall (K : bytes * bytes -> Prop),
   (forall k1 k2, K k1 -> K k2 -> make_key (fst k1) (snd k1) = make_key (fst k2) (snd k2) -> k1 = k2) ->
   forall xs, Forall (fun x => op_domain K (snd x)) xs ->
-  transparent_xrun cache_provider_one_per_app cache_big_values_marked cache_key_guard cache_write_error_marks
+  transparent_xrun cache_provider_one_per_app cache_big_values_marked cache_key_guard cache_expired_leaves_marker
+                   cache_write_error_marks
                    (mkX ([], 0%Z) [] [] 0%Z) xs.
 Proof. exact (fun K Kinj xs => cache_transparent_x_src_proved K Kinj xs (mkX ([], 0%Z) [] [] 0%Z) (CI_init K)). Qed.
 
 (* Both repairs are necessary.  One cache per handle (the code before the repair of C07-HANDLES): the first handle caches "not found", the second writes, the
    first still answers "not found" *)
 Example second_handle_own_cache_refuted :
-  exists xs, list_eqb sout_eqb (xrun spec_step false true true true (mkX ([], 0%Z) [] [] 0%Z) xs)
+  exists xs, list_eqb sout_eqb (xrun spec_step false true true true true (mkX ([], 0%Z) [] [] 0%Z) xs)
                                (under_frun spec_step ([], 0%Z) (map xfop xs)) = false.
 Proof.
   exists [(false, FNone, OGet [97%N; 97%N] [1%N]); (true, FNone, OPut [97%N; 97%N] [1%N] [5%N]);
@@ -169,7 +207,7 @@ Qed.
 (* a failed write leaves the cache as it was (the code before the repair of C07-WRITEERR): a Put that times out after its effect, and a
    batch applied in its first item, leave the old value in the cache *)
 Example failed_write_keeps_entry_refuted :
-  exists xs, list_eqb sout_eqb (xrun spec_step true true true false (mkX ([], 0%Z) [] [] 0%Z) xs)
+  exists xs, list_eqb sout_eqb (xrun spec_step true true true true false (mkX ([], 0%Z) [] [] 0%Z) xs)
                                (under_frun spec_step ([], 0%Z) (map xfop xs)) = false.
 Proof.
   exists [(false, FNone, OPut [97%N; 97%N] [1%N] [0%N]); (false, FErrAfter, OPut [97%N; 97%N] [1%N] [1%N]);
@@ -178,7 +216,7 @@ Proof.
 Qed.
 
 Example partial_batch_keeps_entry_refuted :
-  exists xs, list_eqb sout_eqb (xrun spec_step true true true false (mkX ([], 0%Z) [] [] 0%Z) xs)
+  exists xs, list_eqb sout_eqb (xrun spec_step true true true true false (mkX ([], 0%Z) [] [] 0%Z) xs)
                                (under_frun spec_step ([], 0%Z) (map xfop xs)) = false.
 Proof.
   exists [(false, FNone, OPutBatch [([97%N; 97%N], [1%N], [0%N]); ([97%N; 97%N], [2%N], [0%N])]);
@@ -200,7 +238,8 @@ Example failed_writes_and_handles_nonvacuous :
              (false, FErrAfter, OCad [97%N; 97%N] [3%N] [7%N]); (true, FNone, OGet [97%N; 97%N] [3%N])] in
   Forall (fun x => op_domain K (snd x)) xs /\
   (forall k1 k2, K k1 -> K k2 -> make_key (fst k1) (snd k1) = make_key (fst k2) (snd k2) -> k1 = k2) /\
-  xrun spec_step cache_provider_one_per_app cache_big_values_marked cache_key_guard cache_write_error_marks
+  xrun spec_step cache_provider_one_per_app cache_big_values_marked cache_key_guard cache_expired_leaves_marker
+       cache_write_error_marks
        (mkX ([], 0%Z) [] [] 0%Z) xs = under_frun spec_step ([], 0%Z) (map xfop xs) /\
   under_frun spec_step ([], 0%Z) (map xfop xs) =
     [RGet None; RUnit; RGet (Some [5%N]); RErr; RGet (Some [6%N]); RErr; RGet (Some [6%N]); RUnit; RErr;
@@ -219,6 +258,17 @@ Example no_stale_nonvacuous :
   exists obs, sch_run (sch_init None [WIns 1%N; WPut 2%N] [[OpTTLGet]; [OpGet; OpGet; OpGet]; [OpTTLGet; OpGet]]) sched = Some obs
               /\ In (SGetHit 1 (Some 1%N)) obs /\ In (SGetDone None) obs.
 Proof. eexists. split; [vm_compute; reflexivity|]. split; cbn; tauto. Qed.
+
+(* TTL writes and clock advances, marker variant: an insert with a TTL, the clock, a TTLGet on the expired entry
+   (answered "not found", marker left), a second insert with a TTL, a Get hit, the clock, a plain Get that still
+   hits the (expired) entry and a TTLGet that does not *)
+Example no_stale_clock_nonvacuous :
+  let sched := [PR 0; PR 0; PW; PW; PR 0; PC; PR 1; PW; PW; PR 1; PC; PR 1; PR 2] in
+  exists obs, sch_run_gen true true true (sch_init None [WInsT 1%N; WInsT 2%N] [[OpGet]; [OpTTLGet; OpGet; OpGet]; [OpTTLGet]]) sched = Some obs
+              /\ no_stale [(None, 0%N)] 0 [WInsT 1%N; WInsT 2%N] false [] sched obs = true
+              /\ obs = [SGetStart 0; SNone; SNone; SWDone; SGetDone None; SClock; SGetHit 1 None; SNone; SWDone;
+                        SGetHit 2 (Some 2%N); SClock; SGetHit 2 (Some 2%N); SGetHit 2 None].
+Proof. eexists. split; [vm_compute; reflexivity|]. split; vm_compute; reflexivity. Qed.
 
 (* a program with a big value between two small ones: the mark is overwritten by the next small value *)
 Example no_stale_big_value_nonvacuous :
@@ -257,7 +307,8 @@ Proof.
   - vm_compute. reflexivity.
 Qed.
 
-Print Assumptions no_stale_read_after_completed_write.
+Print Assumptions no_stale_read_after_completed_write_partial.
+Print Assumptions no_stale_with_clock_steps_if_expired_entry_leaves_marker.
 Print Assumptions cache_transparent.
 Print Assumptions cache_transparent_failed_writes_and_handles.
 Print Assumptions cacheable_is_mark_fits.
